@@ -13,7 +13,7 @@ A == ndJsonDeserialize(IOEnv.TRACE)
 B == ndJsonDeserialize(IOEnv.TRACE2)
 VARIABLE l
 Fields == {"e", "g", "to", "ret", "ok", "n", "reads", "ok_rounds", "err", "text", "alt", "src_pos", "src_calls",
-           "set_panic", "err_call", "panic", "no_ret", "obs", "digest", "bytes", "via", "kib", "off", "aborted"}
+           "set_panic", "err_call", "panic", "no_ret", "obs", "digest", "bytes", "via", "kib", "off", "aborted", "reads_n", "reads_digest", "ok_count"}
 SerdeOnly == {"obs"}       \* absent without the serde feature for the plain types
 Same(a, b) ==
   /\ \A f \in Fields \ SerdeOnly : (f \in DOMAIN a) = (f \in DOMAIN b)
@@ -21,7 +21,10 @@ Same(a, b) ==
 Init == l = 1
 Next == /\ l <= Len(A) /\ l <= Len(B)
         /\ IF Same(A[l], B[l]) THEN TRUE
-           ELSE PrintT(<<"MISMATCH", l, "configurations differ", "reference", A[l], "other", B[l]>>) /\ FALSE
+           ELSE PrintT(<<"MISMATCH", l, "the two runs differ in the fields",
+                         {f \in Fields : ((f \in DOMAIN A[l]) # (f \in DOMAIN B[l]) /\ f \notin SerdeOnly)
+                                         \/ (f \in DOMAIN A[l] /\ f \in DOMAIN B[l] /\ A[l][f] # B[l][f])},
+                         "of event", A[l].e>>) /\ FALSE
         /\ l' = l + 1
 Spec == Init /\ [][Next]_l
 Accepted ==
